@@ -867,9 +867,56 @@ def _sc_relabel_fused(rng, sym, cfg):
     return dict(fn=fn, oracle=oracle, operands=[a, b], intermediates=inter, describe=dict(sym=sym, op='relabel_fused', what=what, k=k))
 
 
+def _sc_extend_fused(rng, sym, cfg):
+    """+ / - (both orders) of hard-fused operands where the fused sub-legs of one operand are those of the other plus extra sectors at distant
+    charges: the smaller operand may need no embedding at all, yet the result has to carry the union of the two fusion histories"""
+    k = rng.randint(2, 3)
+    la = [rleg(rng, cfg, sym, maxD=2, nsec=rng.choice([1, 2])) for _ in range(k)]
+    lb = list(la)
+    for i in rng.sample(range(k), rng.randint(1, k)):
+        tD = dict(zip(la[i].t, la[i].D))
+        far = tuple((rng.randrange(m) if m is not None else rng.choice([-7, -5, 5, 6])) for m in MODULI[sym])
+        if far in tD:
+            continue
+        tD[far] = 1 + sum(abs(x_) for x_ in far) % 3
+        ts = sorted(tD)
+        lb[i] = yastn.Leg(cfg, s=la[i].s, t=ts, D=[tD[t_] for t_ in ts])
+    if lb == la:
+        raise Skip('no extension found')
+    x = rleg(rng, cfg, sym, maxD=2)
+    xb = x
+    if rng.random() < 0.7:       # the other leg of the larger operand reaches the new effective charges
+        xb = perturb_leg(rng, cfg, sym, x)
+    n = allowed_charge(rng, cfg, sym, [x] + la)
+    a = rtensor(rng, cfg, [x] + la, n=n)
+    b = rtensor(rng, cfg, [xb] + lb, n=n)
+    if a.size == 0 or b.size == 0:
+        raise Skip('empty operand')
+    what = rng.choice(['add', 'radd', 'sub', 'sub', 'sub', 'rsub'])
+    inter = []
+
+    def fn():
+        fa = a.fuse_legs(axes=(0, tuple(range(1, k + 1))), mode='hard')
+        fb = b.fuse_legs(axes=(0, tuple(range(1, k + 1))), mode='hard')
+        r_ = {'add': lambda: fa + fb, 'radd': lambda: fb + fa, 'sub': lambda: fa - fb, 'rsub': lambda: fb - fa}[what]()
+        inter.append(r_)
+        return r_.unfuse_legs(axes=1)
+
+    def oracle(c):
+        un = {0: yastn.legs_union(x, xb)}
+        un.update({i + 1: yastn.legs_union(la[i], lb[i]) for i in range(k)})
+        da, db = dense(a, un), dense(b, un)
+        return dict(dense={'add': da + db, 'radd': da + db, 'sub': da - db, 'rsub': db - da}[what], legs=un, n=n)
+    return dict(fn=fn, oracle=oracle, operands=[a, b], intermediates=inter, describe=dict(sym=sym, op='extend_fused', what=what, k=k))
+
+
 def sc_fuse(rng, opts):
     """fuse (hard/meta, nested) ; unfuse restores; operations over fused legs equal operations over original legs"""
     sym, cfg = pick_cfg(rng, opts)
+    if opts.get('variant') == 'extend_fused':
+        if sym == 'dense':
+            raise Skip('no sectors to extend')
+        return _sc_extend_fused(rng, sym, cfg)
     r = rng.randint(2, 5)
     la = [rleg(rng, cfg, sym, maxD=2) for _ in range(r)]
     a = rtensor(rng, cfg, la, n=allowed_charge(rng, cfg, sym, la), cplx=rng.random() < 0.3, drop=rng.choice([0, 0.3]))
@@ -891,8 +938,12 @@ def sc_fuse(rng, opts):
         return _sc_mixed_unfuse(rng, sym, cfg)
     if op in ('add3', 'vdot', 'norm') and sym != 'dense' and not opts.get('mode') and rng.random() < 0.5:
         return _sc_disjoint_fused(rng, sym, cfg)
-    if op in ('add', 'dot', 'dense') and sym != 'dense' and not opts.get('mode') and rng.random() < 0.5:
-        return _sc_relabel_fused(rng, sym, cfg)
+    if op in ('add', 'dot', 'dense') and sym != 'dense' and not opts.get('mode'):
+        r_ = rng.random()
+        if r_ < 0.3:
+            return _sc_relabel_fused(rng, sym, cfg)
+        if r_ < 0.5:
+            return _sc_extend_fused(rng, sym, cfg)
     flat = [x for g in groups for x in (g if isinstance(g, tuple) else (g,))]
     qperm = list(range(len(groups))); rng.shuffle(qperm)
     consume_first = rng.random() < 0.3
